@@ -43,3 +43,13 @@ package x509util
 //@ ensures [a-nil-or-unencodable-sct-fails-the-list] (m.called && m.res1 != nil) ==> result1 != nil && result0 == nil
 //@ at m assert [each-sct-is-encoded-whole] typeof(m.val) == ct.SignedCertificateTimestamp && as(m.val, ct.SignedCertificateTimestamp) == *sct
 //@ loop 1 step-assert [the-encoding-just-made-goes-to-the-same-position] sctList.SCTList[len(sctList.SCTList) - 1].Val == m.res0
+
+// The PEM pool behind trusted roots and intermediates (C02, C17): the constructor always hands out a
+// pool, and a new pool lists no certificate (verified; it used to be an assumed stub).
+//@ func NewPEMCertPool
+//@ props C02 C17
+//@ modifies nothing
+//@ frame-trusted builds a new pool
+//@ fresh result
+//@ ensures [a-pool-is-always-handed-out] result != nil
+//@ ensures [a-new-pool-is-empty] len(result.rawCerts) == 0
